@@ -20,9 +20,28 @@ def run(res):
            gocmd="l2core", prelude="Definition step_rec := kstep_rec.\n",
            check_fn="(fun h => kcheck_from %s %s kinit 0 h)" % (IDFIX, DIALFIX),
            ambig_fn="(fun h => kambiguous_from %s %s kinit 0 h)" % (IDFIX, DIALFIX))
+    # the pipe ID allocator itself, around every boundary of its counter (verif hooks position the counter)
+    out, defs, (rc, so, se) = core.gen_and_eval("C13_ids", "c13ids",
+        "From MV Require Import Lib.Check Model.PipeId.\nOpen Scope N_scope.\nOpen Scope list_scope.\n",
+        "Fixpoint nl_eqb (a b : list N) : bool := match a, b with [], [] => true | x :: a', y :: b' => (x =? y) && nl_eqb a' b' | _, _ => false end.\n"
+        "Definition id_ok (c : list idop * list N) : bool := nl_eqb (id_run {| a_used := []; a_next := 0 |} (fst c)) (snd c).\n"
+        "Definition bad_ids := Eval vm_compute in bad_idx id_ok id_cases.\nPrint bad_ids.\n"
+        "Definition nget := Eval vm_compute in N.of_nat (length (flat_map snd id_cases)).\nPrint nget.\n")
+    if out is None:
+        res.violation("ids:harness-abort", "the pipe ID allocator harness did not complete on the current tree (rc=%d): %s" % (rc, se[-600:]),
+                      {"stderr": se[-3000:]}, found_input=("panic:" in se))
+    else:
+        from .c20 import items
+        its = items(open(defs).read(), "id_cases")
+        res.coverage["pipe_id_allocator_cases"] = len(its)
+        res.coverage["pipe_ids_allocated_and_compared"] = core.parse_printed(out, "nget")
+        for i in (core.parse_nlist(core.parse_printed(out, "bad_ids")) or [])[:3]:
+            res.violation("ids:allocator", "the pipe IDs handed out by the allocator for this sequence of counter positions / allocations / releases differ from Model/PipeId.v "
+                          "(zero, a 32-bit value, an ID still in use, or simply another ID)",
+                          {"case": its[i][:3000] if i < len(its) else "?", "format": "([operations], [IDs returned by Get in order])", "model": "Model/PipeId.v id_run"})
     res.coverage["trusted_base"] = core.COQ_TRUSTED + [
         "hand-written model Model/Core.v tied by correspondence at quiescence granularity against the real core.socket/dialer/listener/pipe over a virtual transport "
         "(harness/vt, registered through the public transport.RegisterTransport) and a recording mock protocol (harness/mproto)",
-        "verif hooks internal/core/verif_hooks.go + protocol/verif_hooks.go (read-only: pipe ids in use, pipes listed)",
+        "verif hooks internal/core/verif_hooks.go + protocol/verif_hooks.go (read-only: pipe ids in use, pipes listed; for the allocator check: set the counter, Get, Free)",
         "redial delays are modelled as intervals (random factor in [1.1,1.5]); a timer that may or may not have fired in a step makes the rest of the history ambiguous (not compared)",
     ]
